@@ -11,6 +11,7 @@ From M Require HdrSound.
 From M Require UnitSound.
 From M Require UnitFull.
 From M Require Tie.
+From M Require SuffixSpec.
 From M Require DecSpec.
 From M Require HdrSound.
 From M Require HdrSpec.
@@ -287,14 +288,28 @@ Module T_tie_char_classes. Import Tie. Local Open Scope bool_scope. Local Open S
 Local Open Scope Z_scope.
 Theorem C13_tie_char_classes :
   same_class LexModel.isws Generated.gen_cc_isws = true /\ same_class LexModel.isbdigit Generated.gen_cc_isbdigit = true /\
-  same_class LexModel.isqdigit Generated.gen_cc_isqdigit = true /\ same_class LexModel.isplusmn Generated.gen_cc_isplusmn = true /\
+  same_class LexModel.isqdigit Generated.gen_cc_isqdigit = true /\ same_class LexModel.isxdigit Generated.gen_cc_isxdigit = true /\
   same_class LexModel.isH Generated.gen_cc_isH = true /\ same_class LexModel.isB Generated.gen_cc_isB = true /\
   same_class LexModel.isQ Generated.gen_cc_isQ = true /\ same_class LexModel.isE Generated.gen_cc_isE = true /\
-  same_class LexModel.isascii7 Generated.gen_cc_isascii7 = true /\ same_class LexModel.isexpr Generated.gen_cc_isexpr = true /\
+  same_class LexModel.isplusmn Generated.gen_cc_isplusmn = true /\ same_class LexModel.isdigit Generated.gen_cc_isdigit = true /\
   same_class (fun c => LexModel.isdigit c && negb (LexModel.ischr 48%N c)) Generated.gen_cc_isnzdigit = true /\
-  same_class LexModel.isdigit Generated.gen_cc_isdigit = true /\ same_class LexModel.isalpha Generated.gen_cc_isalpha = true /\
-  same_class LexModel.isalnum Generated.gen_cc_isalnum = true /\ same_class LexModel.isxdigit Generated.gen_cc_isxdigit = true.
+  same_class LexModel.isalpha Generated.gen_cc_isalpha = true /\ same_class LexModel.ismnem Generated.gen_cc_ismnem = true /\
+  same_class (fun c => LexModel.isascii7 c && negb (LexModel.ischr 39%N c)) Generated.gen_cc_isascii7 = true /\
+  same_class LexModel.isexpr Generated.gen_cc_isexpr = true.
 Proof. exact (@Tie.tie_char_classes). Qed.
 End T_tie_char_classes.
 Definition C13_tie_char_classes := @T_tie_char_classes.C13_tie_char_classes.
+
+Module T_suffix_complete. Import SuffixSpec. Local Open Scope bool_scope. Local Open Scope Z_scope.
+Import LexModel LexBounds DecSpec MoreSpecs. Local Open Scope Z_scope.
+Local Open Scope Z_scope.
+Theorem C13_suffix_complete :
+  forall (slash:bool) a m d es rest,
+  a <> [] -> all isalpha a -> digit_ok d -> Forall later_ok es ->
+  starts sepc rest = false -> last_cont m d es rest ->
+  let t := (if slash then [47%N] else []) ++ a ++ tailpart m d ++ laters_text es in
+  lex_suffix (t ++ rest) = mk T_SUFFIX 0 (Z.of_nat (length t)) (Z.of_nat (length t)) (Z.of_nat (length t)).
+Proof. exact (@SuffixSpec.suffix_complete). Qed.
+End T_suffix_complete.
+Definition C13_suffix_complete := @T_suffix_complete.C13_suffix_complete.
 
